@@ -265,23 +265,23 @@ def _flip(op):
     return {'<': '>', '>': '<', '<=': '>=', '>=': '<=', '==': '==', '!=': '!='}.get(op)
 
 
-def _is_abs_reduce_term(t, is_comp):
+def _is_abs_reduce_term(t, is_comp, reducers=('sum', 'mean')):
     """sum/mean over |component|."""
     def is_abs(x):
         return x[0] == 'call' and x[1] in ('numpy.abs', 'numpy.absolute', 'numpy.fabs', 'builtins.abs') \
             and len(x[2]) == 1 and is_comp(x[2][0])
-    if t[0] == 'meth' and t[1] in ('sum', 'mean') and not t[3] and is_abs(t[2]):
+    if t[0] == 'meth' and t[1] in reducers and not t[3] and is_abs(t[2]):
         return True
-    if t[0] == 'call' and t[1] in ('numpy.sum', 'numpy.mean', 'numpy.nansum', 'builtins.sum') and len(t[2]) == 1 \
+    if t[0] == 'call' and t[1].split('.')[-1] in reducers and t[1] in ('numpy.sum', 'numpy.mean', 'builtins.sum') and len(t[2]) == 1 \
             and is_abs(t[2][0]):
         return True
-    if t[0] == 'call' and t[1] == 'numpy.linalg.norm' and len(t[2]) >= 1 and is_comp(t[2][0]) \
+    if 'sum' in reducers and t[0] == 'call' and t[1] == 'numpy.linalg.norm' and len(t[2]) >= 1 and is_comp(t[2][0]) \
             and (t[2][1:] == (C(1),) or dict(t[3]).get('ord') == C(1)):
         return True
     return False
 
 
-def _layer_evidence(e, n0, cap, thresh, extractors):
+def _layer_evidence(e, n0, cap, thresh, extractors, reducers=('sum', 'mean')):
     """Which of the three licensed stop reasons fired / provably did not fire in this iteration.
     -> {'cap': True|False|None, 'threshold': ..., 'flag': ...}   (None = no evidence on this path)"""
     ev = {'cap': None, 'threshold': None, 'flag': None}
@@ -331,13 +331,14 @@ def _layer_evidence(e, n0, cap, thresh, extractors):
         if (a in thv) != (b in thv):
             if a in thv:
                 op, a, b = _flip(op), b, a
-            if _is_abs_reduce_term(a, is_comp):
+            if _is_abs_reduce_term(a, is_comp, reducers):
                 upd('threshold', _eff(op, truth) in ('<', '<='))
     return ev
 
 
 def rule_licensed_exits(ctx, rid, fi, extractor_pred=None, cap='max_imfs', thresh='sift_thresh',
-                        extractors=('emd.sift.get_next_imf',), context=None, must_leave=('cap', 'threshold', 'flag')):
+                        extractors=('emd.sift.get_next_imf',), context=None, must_leave=('cap', 'threshold', 'flag'),
+                        reducers=('sum', 'mean')):
     """Every way of leaving the layer loop is one of: the cap test, the sift threshold on the component just
     extracted, the flag returned by the extraction - and each of the three does stop the loop.  Decided on the
     evaluated ends of one loop iteration (first and later iterations): an iteration that leaves the loop must
@@ -358,7 +359,7 @@ def rule_licensed_exits(ctx, rid, fi, extractor_pred=None, cap='max_imfs', thres
         for passno, how, e in sm.ends:
             if how == 'raise':
                 continue
-            evd = _layer_evidence(e, sm.n_entry_conds, cap, thresh, set(extractors))
+            evd = _layer_evidence(e, sm.n_entry_conds, cap, thresh, set(extractors), reducers)
             if how == 'continue':
                 n_cont += 1
                 for k in names:
